@@ -306,6 +306,9 @@ class ProgGen:
                 elif r < 0.8:
                     parts.append(('dotidx', step))
                 elif r < 0.9 and allow_filter and self.f['filters'] and isinstance(cur[step], dict) and cur[step]:
+                    # `list[ filter ]`; with the star_filter feature (off by default, no draw then) also `list[*][ filter ]`
+                    if self.f.get('star_filter') and rng.random() < self.f['star_filter']:
+                        parts.append(('allidx',))
                     parts.append(('filter', self.filter_cnf(cur[step]), None))
                 else:
                     parts.append(('all',))
